@@ -455,7 +455,8 @@ extern "C" void asl_verif_point(int id, const volatile void* obj) __attribute__(
 enum {
 	ASL_VP_ATOMIC_INC = 1, ASL_VP_ATOMIC_DEC, ASL_VP_THREAD_CREATED, ASL_VP_THREAD_ENTRY, ASL_VP_THREAD_READY,
 	ASL_VP_THREAD_HANDOVER_DONE, ASL_VP_THREAD_EXIT, ASL_VP_THREAD_JOIN, ASL_VP_THREAD_JOINED, ASL_VP_SRV_ACCEPTED,
-	ASL_VP_SRV_STOP_CHECK, ASL_VP_SRV_CLIENT_DONE_PRE, ASL_VP_SRV_CLIENT_DONE_POST, ASL_VP_SRV_LOOP_EXIT
+	ASL_VP_SRV_STOP_CHECK, ASL_VP_SRV_CLIENT_DONE_PRE, ASL_VP_SRV_CLIENT_DONE_POST, ASL_VP_SRV_LOOP_EXIT,
+	ASL_VP_ATOMIC_READ
 };
 #if defined(__SANITIZE_THREAD__)
 extern "C" void __tsan_acquire(void* addr);
